@@ -49,7 +49,7 @@ pub fn gen_case(rng: &mut Rng, idx: usize, thorough: bool) -> Value {
         return json!({"kind": "api", "grammar": g.to_json(), "texts": t.iter().map(|t| vocab::hex(t.as_bytes())).collect::<Vec<_>>(), "vocab_kind": (idx / 32) % 3, "canonical": true, "seed": rng.next() % 1_000_000_000, "steps": steps});
     }
     let (g, texts) = eng::gen_grammar(rng, idx);
-    json!({"kind": "api", "grammar": g.to_json(), "texts": texts.iter().map(|t| vocab::hex(t)).collect::<Vec<_>>(), "vocab_kind": (idx + idx / 3) % 3, "canonical": (idx / 8) % 2 == 0, "seed": rng.next() % 1_000_000_000, "steps": steps})
+    json!({"kind": "api", "grammar": g.to_json(), "texts": texts.iter().map(|t| vocab::hex(t)).collect::<Vec<_>>(), "vocab_kind": (idx + idx / 3) % 3, "canonical": (idx / 8) % 2 == 0, "two_eos": idx % 16 == 3, "seed": rng.next() % 1_000_000_000, "steps": steps})
 }
 
 pub fn run_case(ctx: &Ctx, case: &Value, tag: usize, rep: &mut Report, mb: &mut ModelBatch) {
@@ -227,7 +227,14 @@ fn run_stop(_ctx: &Ctx, case: &Value, tag: usize, rep: &mut Report, mb: &mut Mod
 
 fn run_api(_ctx: &Ctx, case: &Value, tag: usize, rep: &mut Report, mb: &mut ModelBatch) {
     let mut rng = Rng::new(case["seed"].as_u64().unwrap());
-    let Some((g, w)) = world_of(case, &mut rng) else { rep.skip("world"); return; };
+    let Some((g, mut w)) = world_of(case, &mut rng) else { rep.skip("world"); return; };
+    // a vocabulary with two end-of-sequence tokens: the special token before the primary EOS is one as well
+    let two_eos = case["two_eos"].as_bool().unwrap_or(false) && w.eos >= 1 && w.words[w.eos as usize - 1].first() == Some(&0xff);
+    if two_eos {
+        let canonical = case["canonical"].as_bool().unwrap_or(false);
+        match eng::World::new_multi_eos(w.words.clone(), vec![w.eos, w.eos - 1], canonical, None) { Ok(w2) => w = w2, Err(_) => { rep.skip("world"); return; } }
+    }
+    rep.count(&format!("case.two_eos={two_eos}"));
     let steps = case["steps"].as_u64().unwrap() as usize;
     let mut m = w.matcher(&g);
     if m.is_error() { rep.skip("grammar-rejected"); return; }
@@ -259,7 +266,7 @@ fn run_api(_ctx: &Ctx, case: &Value, tag: usize, rep: &mut Report, mb: &mut Mode
             match c.compute_mask_or_eos() {
                 Ok(v) => {
                     let l = v.to_list();
-                    if l.iter().any(|t| *t != w.eos) {
+                    if l.iter().any(|t| !w.is_eos(*t)) {
                         rep.fail("oracle", "c18:mask-after-stop", format!("step {step}: mask after stop ({reason}) contains non-EOS tokens {l:?}"), repro.clone());
                     }
                 }
@@ -293,7 +300,8 @@ fn run_api(_ctx: &Ctx, case: &Value, tag: usize, rep: &mut Report, mb: &mut Mode
         if mask.binary_search(&w.eos).is_err() {
             let mut c = m.deep_clone();
             if step % 2 == 0 { let _ = c.compute_ff_bytes(); }
-            if c.consume_token(w.eos).is_ok() {
+            let e = w.eos_all[step % w.eos_all.len()];
+            if c.consume_token(e).is_ok() {
                 rep.fail("oracle", "c18:eos-accepted-outside-mask", format!("step {step}: EOS is not in the mask (accepting={:?}) but committing it succeeded; stopped after={}", m.deep_clone().is_accepting(), c.is_stopped()), repro.clone());
                 break;
             }
@@ -375,8 +383,14 @@ fn run_api(_ctx: &Ctx, case: &Value, tag: usize, rep: &mut Report, mb: &mut Mode
             continue;
         }
         if mask.is_empty() { break; }
-        let non_eos: Vec<u32> = mask.iter().copied().filter(|t| *t != w.eos).collect();
-        let t = if !non_eos.is_empty() && rng.chance(5, 6) { *rng.pick(&non_eos) } else { *rng.pick(&mask) };
+        let non_eos: Vec<u32> = mask.iter().copied().filter(|t| !w.is_eos(*t)).collect();
+        let eos_in_mask: Vec<u32> = mask.iter().copied().filter(|t| w.is_eos(*t)).collect();
+        if w.eos_all.len() > 1 && !eos_in_mask.is_empty() && eos_in_mask.len() != w.eos_all.len() {
+            rep.fail("oracle", "c18:eos-tokens-not-all-offered", format!("step {step}: of the end-of-sequence tokens {:?} only {eos_in_mask:?} are in the mask", w.eos_all), repro.clone());
+            break;
+        }
+        // with several EOS tokens, end through a secondary one half of the time it is offered
+        let t = if eos_in_mask.len() > 1 && rng.chance(1, 2) { *eos_in_mask.iter().find(|t| **t != w.eos).unwrap() } else if !non_eos.is_empty() && rng.chance(5, 6) { *rng.pick(&non_eos) } else { *rng.pick(&mask) };
         // oracle for the stop decision: accepting-after ∧ (no extension ∨ EOS)
         let mut probe = m.deep_clone();
         let acc_before = probe.is_accepting().unwrap_or(false);
@@ -386,8 +400,9 @@ fn run_api(_ctx: &Ctx, case: &Value, tag: usize, rep: &mut Report, mb: &mut Mode
             break;
         }
         toks.push(t);
-        if t != w.eos { bytes.extend_from_slice(&w.words[t as usize]); }
-        if t == w.eos {
+        if !w.is_eos(t) { bytes.extend_from_slice(&w.words[t as usize]); }
+        if w.is_eos(t) {
+            if t != w.eos { rep.count("api.commits.secondary_eos"); }
             if !acc_before || !m.is_stopped() {
                 rep.fail("oracle", "c18:eos-stop", format!("step {step}: EOS committed: accepting before={acc_before}, stopped after={}", m.is_stopped()), repro.clone());
             }
@@ -407,7 +422,7 @@ fn run_api(_ctx: &Ctx, case: &Value, tag: usize, rep: &mut Report, mb: &mut Mode
             // not stopped: either not accepting or some non-EOS extension exists
             let mut c = m.deep_clone();
             let acc = c.is_accepting().unwrap_or(false);
-            let ext = eng::mask_of(&mut c).map(|v| v.iter().any(|x| *x != w.eos)).unwrap_or(false);
+            let ext = eng::mask_of(&mut c).map(|v| v.iter().any(|x| !w.is_eos(*x))).unwrap_or(false);
             if acc && !ext {
                 rep.fail("oracle", "c18:missed-stop", format!("step {step}: accepting with no extension but not stopped"), repro.clone());
             }
